@@ -14,7 +14,7 @@ import (
 // after the stop, WaitStatus, and a restart on a fresh channel with a probe.
 func ShutdownScenario(t *rapid.T) sim.Scenario {
 	p := Profile{
-		Limits: []int{1, 2, 32}, PNote: 40, PGate: 60, PInvalid: 15, PUnknown: 8, PBatch: 35, MaxBatch: 3,
+		Limits: []int{1, 2, 32}, PNote: 40, PGate: 60, PInvalid: 15, PUnknown: 8, PBatch: 35, MaxBatch: 3, PTopInvalid: 8,
 		PObey: 50, Builtins: true, AllowPush: true,
 	}
 	sc := sim.Scenario{}
